@@ -8,6 +8,10 @@ CHECKS = {
   "text": "Seeded search over stacks (depth 1-6, all layer types and orders) x outcome scripts x submitter threads x schedules; every non-cancelled future is compared with a sequential reference evaluation (value equality, exception identity, invocation count, argument integrity). Evidence of absence over the explored runs, not proof.",
   "note": "Reference model harness/model.py written from the documented semantics; futures touched by cancel() are exempt (C06); paths where an error_fn turns a library-made TypeError text into a value are not predicted (skipped).",
   "design": "10 (C01), 4"},
+ "C02": {
+  "text": "Seeded search over producers (every executor class and f_* combinator) x endings (value, exception, cancel through / behind the future) x multi-threaded histories of cancel / add_done_callback / result / exception / wait / as_completed / done x schedules; history oracles for single immutable outcome, the cancel() contract, exactly-once callbacks and release of blocked callers (in virtual time: a caller that returns only by its 1000 s timeout although the future was terminal long before is a violation).",
+  "note": "Observations are intervals ordered by the simulator's global event sequence; asyncio futures excluded; a user's own raising callback on an already-done future is expected behaviour.",
+  "design": "10 (C02)"},
  "C03": {
   "text": "Seeded search over three workload families (sequential timing against an exact model bound in virtual time; concurrent clients with cancels and cancellation behind the library's back; f_* combinators with inputs finished by other threads). Oracles: nothing pending once all underlying work is terminal; completion no later than configured delays imply (detects lost wake-ups that real-time tests convert into slow passes).",
   "note": "Virtual clock ticks on every read (slack = 20 ms + reads x tick); executors not shut down; promptness oracle only in stall-free runs.",
